@@ -1,12 +1,22 @@
+import re
 from vdriver import Job
 from props import seqcases, C02 as _C02
 
 LEVEL = "other"
 TECHNIQUE = "bounded inductive contract check (CBMC) on the real container operations over an element model with a finalisation ledger / exceptional postconditions"
-LEVEL_TEXT = "placeholder"
-NOTE = "placeholder"
-EXPLANATION = "K3"
+LEVEL_TEXT = 'Exceptional postconditions inside the C02/C04/C08/C09/C19/C20 harnesses: every failing call (indices one past either end and further, empty pop, absent key/element, closed File, unimplemented class, non-heap receiver) must reach the throw stub with the documented exception object and with the receiver equal to its snapshot.'
+NOTE = 'exception_throw is noreturn (C07); OutOfMemoryError excluded (environment); bounded container sizes'
+EXPLANATION = LEVEL_TEXT
 TRUSTED = []
 
 def jobs(tier):
-    return seqcases.array_jobs(tier, "C12") + _C02.table_jobs(tier, "C12")
+    import copy
+    from props import C08, C09, C19, C20
+    J = seqcases.array_jobs(tier, "C12") + _C02.table_jobs(tier, "C12")
+    extra = [j for j in C08.jobs(tier) if "method_missing" in j.name]
+    extra += [j for j in C09.jobs(tier) if "mismatch" in j.name]
+    extra += [j for j in C19.jobs(tier) if re.search(r"C19\.(dealloc_nonheap|null|stack|static)\.", j.name)]
+    extra += C20.jobs(tier)
+    for j in extra:
+        j = copy.copy(j); j.name = "C12." + j.name; J.append(j)
+    return J
